@@ -245,7 +245,7 @@ class Ctx:
         (dropped - neither checked nor assumed - when another property is being checked).  -> [(text, tag)]"""
         out = []
         for c in lst or []:
-            m = re.match(r"\s*@(C\d+)\s+(.*)$", c, re.S)
+            m = re.match(r"\s*@(C\d+\w*)\s+(.*)$", c, re.S)
             if m:
                 if self.prop is None or m.group(1) == self.prop:
                     out.append((m.group(2), m.group(1)))
@@ -996,9 +996,24 @@ def prove1(hyps2, goal2, budget):
     RL = 3000000 if budget <= 30 else 10000000
     defs = relevant_defs(list(hyps2) + [goal2])
     gi = ground_def_instances(list(hyps2) + [goal2], defs) if defs else []
+    qf_goal = not has_quantifier(goal2)
+    if qf_goal and gi:
+        # phase 0: definitions kept opaque (named spec functions / computed sequences are just symbols): many goals follow from
+        # the hints alone, and unfolding large nonlinear definitions only distracts the solver
+        qf_ = [h for h in hyps2 if not has_quantifier(h)]
+        l_ = [l for l in spec_function_lemmas(list(hyps2), goal2, nonlinear=False) if not has_quantifier(l)]
+        for seed in (0, 1):
+            s_ = z3.Solver()
+            s_.set("timeout", 1000)
+            if seed:
+                s_.set("random_seed", seed)
+            s_.add(*qf_)
+            s_.add(*l_)
+            s_.add(z3.Not(goal2))
+            if hard_check(s_, 1000) == z3.unsat:
+                return "discharged", time.time() - t0, None, "z3 (quantifier-free hypotheses, definitions opaque)"
     lem = spec_function_lemmas(list(hyps2) + gi, goal2) + gi
     lem0 = spec_function_lemmas(list(hyps2) + gi, goal2, nonlinear=False) + gi
-    qf_goal = not has_quantifier(goal2)
     if qf_goal:
         qf = [h for h in hyps2 if not has_quantifier(h)]
         lemq = [l for l in (lem if goal_is_nonlinear(goal2) else lem0) if not has_quantifier(l)]
